@@ -474,13 +474,227 @@ fn mutate(text: &mut String, r: &mut Reader, labels: &mut Vec<&'static str>) {
     }
 }
 
+// ---- VAR-block generator ------------------------------------------------------------------------
+//
+// Declarations are where the formatter's text-based passes (colon alignment, `:=`
+// alignment) meet the most token kinds that contain their trigger characters: wide and
+// narrow strings with `:`, `:=`, `;`, comment openers and braces; TOD / DT / TIME literals;
+// AT addresses; typed literals; comments with colons; and initialisers spread over several
+// lines, whose continuation lines have no type colon of their own but sit inside an
+// alignment group.
+
+const VAR_NAMES: &[&str] = &[
+    "a", "x", "ok", "cnt", "state", "label", "timeout", "start_time", "very_long_variable_name",
+    "i1", "msgTable", "q", "shift_plan_for_the_week", "b2", "Mode",
+];
+
+const WIDE_STRINGS: &[&str] = &[
+    "\"st: run\"", "\"a := b;\"", "\"(* no comment *)\"", "\"// neither\"", "\"{ brace: 1 }\"",
+    "\"x : INT := 5; y\"", "\":\"", "\"06:00:00\"", "\"a,b : c\"", "\"\"",
+];
+
+const NARROW_STRINGS: &[&str] = &["'x: y := z'", "'a; (* b *)'", "':'", "'// c {d}'", "''", "'it$'s: ok'"];
+
+const TIME_LITERALS: &[&str] = &[
+    "TOD#06:00:00", "TIME_OF_DAY#23:59:59", "LTOD#15:36:55.36", "DT#2024-01-02-03:04:05",
+    "DATE_AND_TIME#2024-01-02-03:04:05", "LDT#2024-01-02-03:04:05.123", "T#1h2m3s", "TIME#5ms",
+    "LTIME#5ns", "D#2024-01-02", "tod#01:02:03",
+];
+
+fn var_name(r: &mut Reader) -> String {
+    let base = *r.choose(VAR_NAMES);
+    if r.flag() {
+        base.to_string()
+    } else {
+        format!("{base}{}", r.pick(10))
+    }
+}
+
+/// `:` with the blanks the author happened to type.
+fn colon(r: &mut Reader) -> &'static str {
+    *r.choose(&[" : ", ":", ": ", " :", "  :  ", "\t: "])
+}
+
+fn assign(r: &mut Reader) -> &'static str {
+    *r.choose(&[" := ", ":=", ":= ", " :=", "  :=  "])
+}
+
+fn decl_comment(r: &mut Reader) -> &'static str {
+    *r.choose(&[
+        "", "", "", " // note: colon", " (* a: b := c *)", " // x := 1;", " (* unit: \"ms\" *)", " {attr: 1}",
+    ])
+}
+
+/// One declaration item: one or several lines.
+fn var_item(r: &mut Reader, out: &mut Vec<String>) {
+    let n = var_name(r);
+    let c = colon(r);
+    let a = assign(r);
+    let tail = decl_comment(r);
+    match r.pick(24) {
+        0 => out.push(format!("{n}{c}INT;{tail}")),
+        1 => out.push(format!("{n}{c}WSTRING{a}{};{tail}", r.choose(WIDE_STRINGS))),
+        2 => out.push(format!("{n}{c}WSTRING[20]{a}{};{tail}", r.choose(WIDE_STRINGS))),
+        3 => out.push(format!("{n}{c}STRING{a}{};{tail}", r.choose(NARROW_STRINGS))),
+        4 => out.push(format!("{n}{c}TOD{a}{};{tail}", r.choose(TIME_LITERALS))),
+        5 => out.push(format!("{n}{c}DT{a}{};{tail}", r.choose(TIME_LITERALS))),
+        6 => out.push(format!("{n} AT %IX0.{}{c}BOOL;{tail}", r.pick(8))),
+        7 => out.push(format!("{n} AT %QW4{c}WORD{a}16#FF;{tail}")),
+        8 => out.push(format!("{n}{c}INT{a}INT#5;{tail}")),
+        9 => out.push(format!("{n}{c}DINT{a}DINT#16#7F;{tail}")),
+        10 => out.push(format!("{n}, {}{c}BOOL;{tail}", var_name(r))),
+        11 => out.push(format!("{n}{c}ARRAY[0..3] OF INT{a}[1, 2, 3, 4];{tail}")),
+        12 => out.push(format!("{n}{c}(Red, Green){a}Red;{tail}")),
+        13 => out.push(format!("{n}{c}INT (0..100);{tail}")),
+        14 => out.push(format!("{n}{c}{};{tail}", r.choose(&["POINTER TO INT", "REF_TO INT", "TON", "REAL := 1.5e-3"]))),
+        15 => out.push(format!(
+            "{n}{c}FB_Type(a{a}1, b{a}{}, c{a}{});{tail}",
+            r.choose(WIDE_STRINGS),
+            r.choose(TIME_LITERALS)
+        )),
+        16 => {
+            // array of wide strings spread over lines
+            out.push(format!("{n}{c}ARRAY[0..3] OF WSTRING{a}["));
+            for _ in 0..1 + r.pick(3) {
+                out.push(format!("{}, {},{tail}", r.choose(WIDE_STRINGS), r.choose(WIDE_STRINGS)));
+            }
+            out.push(format!("{}", r.choose(WIDE_STRINGS)));
+            out.push("];".to_string());
+        }
+        17 => {
+            // array of time literals, continued
+            out.push(format!("{n}{c}ARRAY[0..2] OF TOD{a}[{},", r.choose(TIME_LITERALS)));
+            out.push(format!("{},{tail}", r.choose(TIME_LITERALS)));
+            out.push(format!("{}];", r.choose(TIME_LITERALS)));
+        }
+        18 => {
+            // struct initialiser
+            out.push(format!("{n}{c}ShiftPlan{a}("));
+            out.push(format!("start{a}{},{tail}", r.choose(TIME_LITERALS)));
+            out.push(format!("label{a}{},", r.choose(WIDE_STRINGS)));
+            out.push(format!("n{a}INT#5);"));
+        }
+        19 => {
+            // expression continued on the next lines
+            out.push(format!("{n}{c}INT{a}1 +"));
+            out.push(format!("2 * INT#3 +{tail}"));
+            out.push(format!("LEN({});", r.choose(WIDE_STRINGS)));
+        }
+        20 => {
+            // declaration split before its colon / its initialiser
+            out.push(n);
+            out.push(format!("{}INT", c.trim_start()));
+            out.push(format!("{}5;{tail}", a.trim_start()));
+        }
+        21 => out.push(r.choose(&["// group: two", "(* block: comment *)", "", "{region: vars}", "(* a", "   b: c *)"]).to_string()),
+        22 => out.push(format!("{n}{c}ARRAY[1..2, 0..1] OF DT{a}[{}, {}];{tail}", r.choose(TIME_LITERALS), r.choose(TIME_LITERALS))),
+        _ => out.push(format!("{n}{c}WSTRING{a}{}; {}{c}TOD{a}{};{tail}", r.choose(WIDE_STRINGS), var_name(r), r.choose(TIME_LITERALS))),
+    }
+}
+
+fn gen_var_program(r: &mut Reader) -> String {
+    let mut lines: Vec<String> = Vec::new();
+    let (open, close) = *r.choose(&[
+        ("PROGRAM Main", "END_PROGRAM"),
+        ("FUNCTION_BLOCK FB_Vars", "END_FUNCTION_BLOCK"),
+        ("FUNCTION F : INT", "END_FUNCTION"),
+        ("CONFIGURATION C", "END_CONFIGURATION"),
+        ("TYPE ShiftPlan : STRUCT", "END_STRUCT END_TYPE"),
+    ]);
+    lines.push(open.to_string());
+    let is_struct = open.starts_with("TYPE");
+    let blocks = if is_struct { 1 } else { 1 + r.pick(3) };
+    for _ in 0..blocks {
+        if !is_struct {
+            lines.push(
+                r.choose(&[
+                    "VAR", "VAR_INPUT", "VAR_OUTPUT", "VAR_IN_OUT", "VAR_TEMP", "VAR CONSTANT", "VAR RETAIN",
+                    "VAR_GLOBAL", "VAR_EXTERNAL", "VAR_STAT", "VAR // locals: many", "VAR_GLOBAL CONSTANT",
+                ])
+                .to_string(),
+            );
+        }
+        for _ in 0..2 + r.pick(6) {
+            var_item(r, &mut lines);
+        }
+        if !is_struct {
+            lines.push("END_VAR".to_string());
+        }
+    }
+    if !is_struct && !open.starts_with("CONFIGURATION") {
+        for _ in 0..r.pick(4) {
+            lines.push(r.choose(STMTS).to_string());
+        }
+    }
+    lines.push(close.to_string());
+    // the author's indentation
+    let indent = *r.choose(&["", "    ", "  ", "\t", " "]);
+    let mut s = String::new();
+    for l in lines {
+        for part in l.split('\n') {
+            if !part.is_empty() && !part.starts_with("END_") && !part.starts_with("VAR") && r.weighted(&[1, 3]) == 1 {
+                s.push_str(indent);
+            }
+            s.push_str(part);
+            s.push('\n');
+        }
+    }
+    s
+}
+
+/// Ingredient labels (any class): what the text-based passes can trip over.
+fn ingredient_labels(text: &str, probe: &mut Probe) {
+    let sig_toks = lex(text);
+    let mut wide_colon = false;
+    let mut narrow_colon = false;
+    let mut time_colon = false;
+    let mut comment_colon = false;
+    for t in &sig_toks {
+        let s = &text[usize::from(t.range.start())..usize::from(t.range.end())];
+        if !s.contains(':') {
+            continue;
+        }
+        match t.kind {
+            TokenKind::WideStringLiteral => wide_colon = true,
+            TokenKind::StringLiteral => narrow_colon = true,
+            TokenKind::LineComment | TokenKind::BlockComment | TokenKind::Pragma => comment_colon = true,
+            TokenKind::Colon | TokenKind::Assign | TokenKind::Error => {}
+            _ => time_colon = true,
+        }
+    }
+    for (flag, label) in [
+        (wide_colon, "has:wide-string-with-colon"),
+        (narrow_colon, "has:string-with-colon"),
+        (time_colon, "has:literal-with-colon(TOD/DT)"),
+        (comment_colon, "has:comment-with-colon"),
+        (text.contains(" AT %"), "has:at-address"),
+        (text.contains("INT#"), "has:typed-literal"),
+        (text.contains("[\n") || text.contains("[\r\n"), "has:multi-line-array-initialiser"),
+        (text.contains("(\n") || text.contains("(\r\n"), "has:multi-line-struct-initialiser"),
+        (text.contains("+\n") || text.contains("+\r\n"), "has:continued-expression"),
+    ] {
+        if flag {
+            probe.label(label);
+        }
+    }
+}
+
+/// Case of the `webide` search: older replay files hold the bare text.
+#[derive(Clone, Debug, Serialize, Deserialize)]
+#[serde(untagged)]
+pub enum WebCase {
+    Text(String),
+    Classed { class: String, text: String },
+}
+
 fn gen_case(tape: &Tape) -> Case {
     let c = super::c12::corpus();
     let mut r = Reader::new(tape);
     let cfg = gen_cfg(&mut r);
     let mut labels: Vec<&'static str> = Vec::new();
-    let (mut text, class) = match r.weighted(&[4, 3, 2]) {
+    let (mut text, class) = match r.weighted(&[3, 3, 2, 4]) {
         0 => (gen_program(&mut r), "generated"),
+        3 => (gen_var_program(&mut r), "varblock"),
         1 => {
             let mut pick = None;
             for _ in 0..6 {
@@ -805,6 +1019,7 @@ fn check_lsp(case: &Case, probe: &mut Probe, env: &Env) -> Result<(), String> {
     };
 
     probe.label(format!("class={}", case.class));
+    ingredient_labels(text, probe);
     probe.label(format!("profile={}", if PROFILES[pi].is_empty() { "none" } else { PROFILES[pi] }));
     if let Some(s) = &case.cfg.settings {
         if let Some(v) = &s.spacing_style {
@@ -923,8 +1138,15 @@ fn check_lsp(case: &Case, probe: &mut Probe, env: &Env) -> Result<(), String> {
 
 // ---- web IDE formatter ---------------------------------------------------------------------------------
 
-fn check_web(text: &String, probe: &mut Probe, env: &Env) -> Result<(), String> {
+fn check_web(case: &WebCase, probe: &mut Probe, env: &Env) -> Result<(), String> {
     use trust_runtime::web::ide::{IdeRole, WebIdeState};
+    let text = match case {
+        WebCase::Text(t) => t,
+        WebCase::Classed { class, text } => {
+            probe.label(format!("web:class={class}"));
+            text
+        }
+    };
     if text.replace("\r\n", "").contains('\r') {
         probe.label("skipped:lone-cr");
         return Ok(());
@@ -1061,9 +1283,12 @@ fn run(ctx: &mut RunCtx) {
     );
     ctx.search(
         "webide",
-        tape_strategy(300).prop_map(|t| gen_case(&t).text),
+        tape_strategy(300).prop_map(|t| {
+            let c = gen_case(&t);
+            WebCase::Classed { class: c.class, text: c.text }
+        }),
         tier.pick(10_000, 200_000),
-        |text: &String, probe| check_web(text, probe, &env),
+        |case: &WebCase, probe| check_web(case, probe, &env),
     );
 
     if let Some(why) = env.pool.infra() {
